@@ -656,6 +656,8 @@ func streamPairs(w *W, rng *rand.Rand, tier string) {
 	}
 	streamMultiHole(w, rng, nm)
 	streamBigIndexed(w, rng, nb)
+	streamLongInHole(w, rng, nm/7)
+	streamFlatRectOnLine(w, rng, nm/2)
 	// collinear horizontal line families for line x line containment (spanning, nested, stray)
 	m := 3000
 	if tier == "thorough" {
